@@ -242,11 +242,26 @@ def _run_one(prop, known, ctx, case, state):
     try:
         try:
             prop.run_case(case, ctx)
+        except (Violation, HarnessError):
+            raise
         except MemoryError:
             # the worker's address-space limit was hit while running / judging this case (a parse that returns or
             # allocates an absurdly large value): a finding about this case, not a harness error
             _open_headroom()
             raise Violation("memory-exhausted", "running this case exhausted the worker's memory limit (VERIF_WORKER_MEM_GB); a parse returned or tried to allocate an absurdly large value") from None
+        except Exception as e:  # noqa: BLE001
+            # an exception that left the code under test through a call the check did not wrap: when the innermost frame
+            # is library code it is an outcome of the library (nothing in a check expects it: judged as a violation); an
+            # exception raised by the check's own code stays a harness error
+            tb = e.__traceback__
+            last = None
+            while tb is not None:
+                last = tb.tb_frame.f_code.co_filename
+                tb = tb.tb_next
+            if last and ("/dissect/cstruct/" in last or last.startswith("<compiled")):
+                where = _innermost_lib_frame(e)
+                raise Violation("library-raised-unexpectedly", f"{type(e).__name__}: {str(e)[:300]} (raised inside the library, outside any call whose failure the check anticipates)", where, {"exc": type(e).__name__}) from None
+            raise
     except Violation as v:
         kid = known.match(case, v)
         if kid is not None:
